@@ -765,7 +765,14 @@ func unify(p, t *Term, b Bind) bool {
 		return true
 	case "pv":
 		if old, ok := b[p.S]; ok {
-			return old.Key() == t.Key()
+			if old.Key() == t.Key() {
+				return true
+			}
+			// a pointer conversion between a type and the type it is defined from names the same value
+			if (t.K == "conv" || old.K == "conv") && isPtrConv(t) && isPtrConv(old) {
+				return stripConv(old).Key() == stripConv(t).Key()
+			}
+			return false
 		}
 		b[p.S] = t
 		return true
@@ -928,4 +935,15 @@ func sortedKeys(m map[string]*Term) []string {
 
 func constInt(o *types.Const) (int64, bool) {
 	return constant.Int64Val(constant.ToInt(o.Val()))
+}
+
+// isPtrConv: not a conversion, or a conversion written with a pointer type ((*T)(v)): the value keeps its identity.
+func isPtrConv(t *Term) bool {
+	for t.K == "conv" && len(t.A) == 1 {
+		if !strings.HasPrefix(t.S, "*") && !strings.HasPrefix(t.S, "(*") {
+			return false
+		}
+		t = t.A[0]
+	}
+	return true
 }
